@@ -232,6 +232,31 @@ pub fn uadv(thorough: bool) -> Vec<(String, Pats)> {
     v
 }
 
+/// Adversarial families for case-insensitive models: wide nodes whose
+/// children include all 26 letters AND the six bytes between 'Z' and 'a'
+/// (under folding a letter's two transitions lead to the same child; the
+/// bytes [ \\ ] ^ _ ` sort between them), with a suffix pattern to inherit.
+pub fn uci_adv() -> Vec<(String, Pats)> {
+    let mut v = vec![];
+    let mut p: Pats = vec![b("a")];
+    p.extend((b'a'..=b'z').map(|c| vec![b'x', c]));
+    p.push(b("x_"));
+    v.push(("ci-wide27".to_string(), p.clone()));
+    for c in [b'[', b'\\', b']', b'^', b'`', b'@', b'{'] {
+        p.push(vec![b'x', c]);
+    }
+    p.push(b("_"));
+    v.push(("ci-wide34".to_string(), p));
+    // the same at the root: all letters and the in-between bytes as
+    // one-byte patterns next to two-byte patterns ending in them
+    let mut q: Pats = (b'A'..=b'Z').map(|c| vec![c]).collect();
+    q.extend([b'[', b'_', b'`'].iter().map(|&c| vec![c]));
+    q.push(b("_z"));
+    q.push(b("q_"));
+    v.push(("ci-root-wide".to_string(), q));
+    v
+}
+
 /// The symbols that occur in a pattern list (plus opposite cases if `ci`),
 /// sorted.
 pub fn sigma(pats: &Pats, ci: bool) -> Vec<u8> {
